@@ -393,6 +393,13 @@ class Printer:
             mode = None
         inner = self.strip(a)
         if mode == 'pointer':
+            if a.get('valueCategory') in ('prvalue', 'xvalue'):
+                # a temporary of scalar / small-value type bound to a reference whose type could not be resolved (e.g. key_type&&): the value
+                try:
+                    c, k = self.ctype(a['type'])
+                    if k in ('scalar', 'val'): return self.expr(a)
+                except ExtractionBreak:
+                    pass
             return simp_addr(self.expr(a))
         if mode == 'value':
             return self.expr(a)
